@@ -212,7 +212,7 @@ def sparse_getitem(sparse, idxs):
 
 def sparse_repeat(sparse, *repeat_sizes):
     """ """
-    if len(repeat_sizes) == 1 and isinstance(repeat_sizes, tuple):
+    if len(repeat_sizes) == 1 and isinstance(repeat_sizes[0], (tuple, list, torch.Size)):
         repeat_sizes = repeat_sizes[0]
 
     if len(repeat_sizes) > len(sparse.shape):
